@@ -184,7 +184,9 @@ func expectedRelGroups(ss *gen.SchemaSpec) map[string][]jsonapi.Rel {
 func groupOf(groups map[string][]jsonapi.Rel, r jsonapi.Rel) string {
 	for _, k := range gen.SortedKeys(groups) {
 		for _, m := range groups[k] {
-			if m == r {
+			// Rels() lists normalised relationships: an entry is a stored
+			// relationship or the inverse of one.
+			if m == r || m.Invert() == r {
 				return k
 			}
 		}
